@@ -115,16 +115,22 @@ def build(ctx):
     schb, incb = hgen.gen_headers(ctx, "vs_msg_be.xml")
     sel = [("grp", 28), ("nsm", 24), ("odd", 20), ("tailc", 22)] if ctx.quick else [("grp", 34), ("nsm", 30), ("odd", 24), ("tailc", 26), ("nest", 40), ("misc", 60)]
     plan = [(sch, inc, "17", "unchecked")] if ctx.quick else [(sch, inc, "17", "unchecked"), (schb, incb, "20", "unchecked"), (sch, inc, "17", "checked"), (sch, inc, "11", "unchecked")]
+    # second family (vs_msg2): message without members, entries ending in a nested group, entries without fields, several data members per level, three sibling groups
+    sch2, inc2 = hgen.gen_headers(ctx, "vs_msg2_le.xml")
+    sel2 = [("empty", 12), ("gng", 20), ("d3", 20)] if ctx.quick else [("empty", 14), ("gng", 26), ("d3", 26), ("g3", 26), ("lastcomp", 24), ("lastset", 30)]
+    sels = {id(sch2): sel2}
+    plan += [(sch2, inc2, "17", "unchecked")] if ctx.quick else [(sch2, inc2, "17", "unchecked"), (sch2, inc2, "20", "checked")]
     open_f = [f for f in KF if f in ctx.open]
     for (s_, inc_, std, mode) in plan:
-        for (mname, nmax) in sel:
+        for (mname, nmax) in sels.get(id(s_), sel):
             msg = s_.message(mname)
             g = msggen.MG(s_, msg, 2)
             u = ctx.lower("c06_%s_%s" % (s_.ns, mname), cpp(g), std=std, mode=mode, incs=[inc_])
             targets = [("sbc_%s" % g.M, g.M, ref_c(g, g.M, msg, False), "message view"), ("sbcc_%s" % g.M, g.M, ref_c(g, g.M, msg, False), "const message view")]
             for gr in msg.groups:
                 targets.append(("sbcg_%s_%s" % (g.M, gr.name), "%s_%s" % (g.M, gr.name), ref_c(g, "%s_%s" % (g.M, gr.name), gr, True), "group view %s" % gr.name))
-            if ctx.quick: targets = [t for t in targets if not t[0].startswith("sbcc_") and t[0] != "sbc_nsm"]   # nsm message view: thorough tier (minutes)
+            nested = any(gr.groups for gr in msg.groups)
+            if ctx.quick: targets = [t for t in targets if not t[0].startswith("sbcc_") and not (nested and t[0].startswith("sbc_"))]   # nsm message view: thorough tier (minutes)
             for (fn, refname, refc, what) in targets:
                 isgrp = fn.startswith("sbcg_")
                 # A: structure harness (counts <= 3, larger buffer)   B: hostile-count harness (counts unconstrained, small buffer, unwind n+2)
